@@ -79,8 +79,8 @@ def _leg_selection(ctx, f):
 
 def _modify_kwargs(ctx, f):
     mods = [c for c in walk_own(f.node) if isinstance(c, ast.Call) and isinstance(c.func, ast.Attribute)
-            and c.func.attr == "modify" and any(k.arg == "charge" for k in c.keywords)]
-    ctx.need(len(mods) == 1, f"{f.qualname}: expected one modify(charge=...) call")
+            and c.func.attr == "modify" and any(k.arg == "indices" for k in c.keywords)]
+    ctx.need(len(mods) == 1, f"{f.qualname}: expected one modify(indices=...) call")
     return {k.arg: k.value for k in mods[0].keywords}, mods[0]
 
 
@@ -92,7 +92,7 @@ def check_siblings(prog, ctx):
     kd, md = _modify_kwargs(ctx, dag)
     # (a) charge
     for f, k, m in ((conj, kc, mc), (dag, kd, md)):
-        ctx.check(src(k["charge"]) == "new.symmetry.sign(new._charge)", rid, f, m, src(m)[:80],
+        ctx.check("charge" in k and src(k["charge"]) == "new.symmetry.sign(new._charge)", rid, f, m, src(m)[:80],
                   f"(a) {f.name}: total charge becomes sign(charge)")
         ctx.check("oddpos" in k and src(k["oddpos"]) == "oddpos_dag(new._oddpos)", rid, f, m, src(m)[:80],
                   f"(b) {f.name}: odd-position labels are conjugated and reversed (oddpos_dag)")
